@@ -105,6 +105,17 @@ func c13Pool() []ap.Item {
 	}
 }
 
+// pairwise distinct identity, ids that embed another absolute URL (same tail behind different hosts and paths)
+func c13NestedPool() []ap.Item {
+	return []ap.Item{
+		ap.IRI("https://one.example/proxy?url=https://remote.example/notes/1"),
+		&ap.Object{ID: "https://two.example/fetch/cached?src=https://remote.example/notes/1", Type: ap.NoteType},
+		ap.IRI("https://remote.example/notes/1"),
+		&ap.Actor{ID: "https://three.example/https://remote.example/notes/1", Type: ap.PersonType},
+		ap.Object{ID: "https://one.example/proxy?url=http://remote.example/notes/2", Type: ap.ArticleType},
+	}
+}
+
 // outside the property's domain: equivalent ids in different shapes, a link, an id-less object
 func c13OddPool() []ap.Item {
 	return []ap.Item{
@@ -189,8 +200,9 @@ func runC13(seed int64, n int, tier string, outDir string) (*Report, error) {
 	}
 	idx := 0
 	// native evaluation of one history against an insertion-ordered set of indices
+	cur := pool // the pool the native evaluation runs over
 	check := func(kind int, ops []c13Op) c13Trace {
-		tr := c13Run(kind, pool, ops)
+		tr := c13Run(kind, cur, ops)
 		rep.Evaluations++
 		fail := func(step int, want, got string) {
 			rep.Violate(Violation{Op: c13Labels[kind] + " history", Input: fmt.Sprint(ops[:step+1]), Expected: want, Observed: got, Index: idx})
@@ -211,7 +223,7 @@ func runC13(seed int64, n int, tier string, outDir string) (*Report, error) {
 			return false
 		}
 		for k, o := range ops {
-			x := pool[o.idx]
+			x := cur[o.idx]
 			switch o.kind {
 			case 0:
 				if !member(o.idx) {
@@ -246,7 +258,7 @@ func runC13(seed int64, n int, tier string, outDir string) (*Report, error) {
 			view := b.view()
 			want := make([]string, len(set))
 			for i, j := range set {
-				want[i] = shown(kind, pool[j])
+				want[i] = shown(kind, cur[j])
 			}
 			got := make([]string, len(view))
 			for i, it := range view {
@@ -322,6 +334,22 @@ func runC13(seed int64, n int, tier string, outDir string) (*Report, error) {
 		}
 		idx++
 	}
+	// the same natively over a second pool of pairwise distinct identity whose ids embed another absolute URL with the
+	// same tail (a proxy / share link): wherever the comparison cuts the scheme off, these stay five different members
+	cur = c13NestedPool()
+	for i := 0; i < n/2+60; i++ {
+		kind := i % len(c13Containers)
+		m := 3 + g.Intn(12)
+		ops := make([]c13Op, m)
+		for j := range ops {
+			ops[j] = c13Op{[]int{0, 0, 1, 2}[g.Intn(4)], g.Intn(len(cur))}
+		}
+		check(kind, ops)
+		rep.Distinguish("nested:"+c13Labels[kind]+fmt.Sprint(ops), nontrivial(ops))
+		rep.Count("random-nested-url-pool")
+		idx++
+	}
+	cur = pool
 	// variadic Append: several items in ONE call, with repeats inside the call and against the prior state
 	hdrV := "From AP.Model Require Import Prelude Vocab Pred Equal Coll.\n" + poolDef(pool) +
 		"Definition ok (c : bool * list nat * list nat * list item) : bool := let '(iris, prior, obs, fin) := c in\n" +
